@@ -114,12 +114,14 @@ static inline std::string gen_name(int i) {
 
 static const int WRITABLE[] = {T_I32, T_I64, T_F64, T_BA, T_BOOL, T_F32, T_FLBA};
 
-static inline Node gen_flat_leaf(int i, bool allow_optional, bool allow_unsigned = false, bool allow_repeated = false) {
+static inline Node gen_flat_leaf(int i, bool allow_optional, bool allow_unsigned = false, bool allow_repeated = false, bool allow_int96 = false) {
     Node n; n.leaf = true;
     n.name = gen_name(i);
     n.type = WRITABLE[draw(7)];
     n.rep = allow_optional && draw(2) ? OPT : REQ;
     n.tlen = n.type == T_FLBA ? range(1, 20) : 0;
+    // INT96: the schema builder takes it, the writer refuses its batches (NOT_IMPLEMENTED) - a history with a refused call
+    if (allow_int96 && draw(80) == 0) n.type = T_I96;
     // a top-level REPEATED leaf (a list per row): the writer API takes repetition levels for it
     if (allow_repeated && draw(5) == 0) n.rep = REPEATED;
     // an integer column annotated as unsigned: same bits, but statistics and predicates order them as unsigned numbers
@@ -128,7 +130,7 @@ static inline Node gen_flat_leaf(int i, bool allow_optional, bool allow_unsigned
 }
 
 // flat table: schema + rows per row group + content
-struct FlatOpts { int max_cols = 8; int max_rgs = 4; bool allow_big = true; bool allow_wide = true; bool allow_optional = true; bool allow_medium = true; bool allow_unsigned = false; bool allow_repeated = false; };
+struct FlatOpts { int max_cols = 8; int max_rgs = 4; bool allow_big = true; bool allow_wide = true; bool allow_optional = true; bool allow_medium = true; bool allow_unsigned = false; bool allow_repeated = false; bool allow_int96 = false; };
 
 static inline void fill_chunk(Chunk& ch, const Col& c, int64_t rows) {
     if (c.max_rep > 0) {      // top-level REPEATED leaf: a list of 0..4 values per row (max_def 1, max_rep 1)
@@ -219,7 +221,7 @@ static inline Table gen_flat_table(const FlatOpts& o) {
     if (o.allow_wide && draw(60) == 59) ncols = 70 + (int)draw(230);
     if (o.allow_wide && g_row_cap == 0 && draw(12000) == 11999) ncols = 9990 + (int)draw(20);      // around the 10000-element limit the footer parser sets itself
     else if (o.allow_medium && draw(12) == 11) ncols = 9 + (int)draw(12);      // 9..20: crosses the 15-element Thrift list-header switch
-    for (int i = 0; i < ncols; i++) t.root.kids.push_back(gen_flat_leaf(i, o.allow_optional, o.allow_unsigned, o.allow_repeated));
+    for (int i = 0; i < ncols; i++) t.root.kids.push_back(gen_flat_leaf(i, o.allow_optional, o.allow_unsigned, o.allow_repeated, o.allow_int96));
     derive_leaves(t);
     int nrg = 1 + (int)draw((uint32_t)o.max_rgs);
     if (o.allow_medium && draw(16) == 15) nrg = 5 + (int)draw(14);                 // 5..18 row groups
